@@ -9,7 +9,7 @@ import re
 import shutil
 import subprocess
 
-from common import CACHE, GUARD, MODEL, REPO, SYNX, VERIF, log, run, sha, repo_tree_hash, model_hash, hash_files
+from common import WORK, CACHE, GUARD, MODEL, REPO, SYNX, VERIF, log, run, sha, repo_tree_hash, model_hash, hash_files
 import gen
 
 NSHARDS = 12
@@ -63,7 +63,7 @@ def run_workspace(root, feature, tag):
     prefix = os.path.join(root, "dump")
     for f in glob.glob(prefix + ".*"):
         os.remove(f)
-    target = os.path.join(CACHE, "target-corpus-%s" % ("on" if feature else "off"))
+    target = os.path.join(WORK, "target-corpus-%s" % ("on" if feature else "off"))
     env = {"RUSTFLAGS": "--cfg %s --cap-lints allow" % GUARD, "ENTRAIT_VERIF_DUMP": prefix, "CARGO_TARGET_DIR": target,
            "CARGO_INCREMENTAL": "0"}
     rc, out, dt = run(["cargo", "check", "--offline", "--workspace", "--keep-going", "-j", "16", "--message-format=short"],
@@ -146,7 +146,7 @@ def attribute(rows, index, cases):
 
 def run_cases(cases, name, root=None, shard_fn=None, order_rng=None, features=(False, True)):
     """cases through the real macro in both feature settings; returns the result dict"""
-    root = root or os.path.join(CACHE, "corpus", name)
+    root = root or os.path.join(WORK, "corpus", name)
     os.makedirs(root, exist_ok=True)
     result = {"key": name, "cases": [c.descr() for c in cases], "rows": {}, "stats": {}}
     for feature in features:
@@ -172,13 +172,13 @@ def load_or_run(seed, tier, keep_others=False):
     from common import ensure_tools
     ensure_tools()
     key = corpus_key(seed, tier)
-    root = os.path.join(CACHE, "corpus", key)
+    root = os.path.join(WORK, "corpus", key)
     done = os.path.join(root, "result.json")
     if os.path.exists(done):
         with open(done) as fh:
             return json.load(fh)
     # keep the cache small: drop other corpora
-    base = os.path.join(CACHE, "corpus")
+    base = os.path.join(WORK, "corpus")
     if os.path.isdir(base) and not keep_others:
         for d in os.listdir(base):
             if d != key:
@@ -195,7 +195,7 @@ def rerun_shuffled(res, seed, runs=1):
     """the same cases again: other compiler processes, other sharding, shuffled order (for C20).
     Only the feature-off workspace unless runs > 1. Cached next to the corpus."""
     import random
-    root = os.path.join(CACHE, "corpus", res["key"])
+    root = os.path.join(WORK, "corpus", res["key"])
     done = os.path.join(root, "rerun%d.json" % runs)
     if os.path.exists(done):
         with open(done) as fh:
